@@ -13,7 +13,7 @@ import (
 func init() {
 	register(&propDef{
 		id:      "C19",
-		explain: "Structural necessary conditions of 'a request is transmitted at most MaxIdemponentCallAttempts times, only when the retry policy allows, never when it carries a body stream': in HostClient.Do's retry loop, on every path from one transmission attempt to the next the code has passed (a) the exit for requests with a body stream, tested on a value computed before the first transmission (Request.Write consumes the stream, so a test made after an attempt sees nothing), (b) the attempt counter increment and the exit when it reaches the limit, where the limit is the configured value or the default when that is not positive, (c) the retry decision of the configured callback or the idempotency predicate with an exit when it says no, and (d) when a timeout is set, the deadline test; a failed attempt whose error is nil or whose retry flag is false ends the loop. isIdempotent depends only on IsGet / IsHead / IsPut. In the transport: the return that follows a failed connection acquisition and the one for ErrBodyTooLarge carry retry = false. Not decided: counting transmissions in executions, server behaviour.",
+		explain: "Structural necessary conditions of 'a request is transmitted at most MaxIdemponentCallAttempts times, only when the retry policy allows, never when it carries a body stream': in HostClient.Do's retry loop, on every path from one transmission attempt to the next the code has passed (a) the exit for requests with a body stream, tested on a value computed before the first transmission (Request.Write consumes the stream, so a test made after an attempt sees nothing), (b) the attempt counter increment and the exit when it reaches the limit, where the limit is the configured value or the default when that is not positive, (c) the retry decision of the configured callback or the idempotency predicate with an exit when it says no, and (d) when a timeout is set, the deadline test; a failed attempt whose error is nil or whose retry flag is false ends the loop. isIdempotent depends only on IsGet / IsHead / IsPut. In the transport: the return that follows a failed connection acquisition and the one for ErrBodyTooLarge carry retry = false. (R3) the counter compared with the limit and carried into the next iteration is the loop's counter plus a positive step on every path (no conditional increment). Not decided: counting transmissions in executions, server behaviour.",
 		run:     runC19,
 	})
 }
@@ -160,6 +160,102 @@ func runC19(p *Prog, r *Report) {
 			}
 		}
 		r.Check("R2", "HostClient.Do: the attempt limit is the configured value or a positive default", ok, p.Pos(fn.Pos()), "no merge of HostClient.MaxIdemponentCallAttempts with a positive constant default was found")
+	}
+	// R3: the attempt counter counts every retry. The value compared with the limit, and the value the loop carries
+	// into its next iteration, are the header's counter plus a positive step on every path - a merge with the
+	// uncounted value (an increment made under a condition) lets some failed attempts go unnumbered, and the loop
+	// then retransmits beyond the limit.
+	{
+		var limitPhi *ssa.Phi
+		for _, b := range fn.Blocks {
+			for _, in := range b.Instrs {
+				if ph, isPhi := in.(*ssa.Phi); isPhi {
+					for _, e := range ph.Edges {
+						if _, fv := loadedField(e); fv != nil && fv.Name() == "MaxIdemponentCallAttempts" {
+							limitPhi = ph
+						}
+					}
+				}
+			}
+		}
+		n := 0
+		for _, b := range fn.Blocks {
+			iff, ok := b.Instrs[len(b.Instrs)-1].(*ssa.If)
+			if !ok || !inL(b) || limitPhi == nil {
+				continue
+			}
+			bo, ok := iff.Cond.(*ssa.BinOp)
+			if !ok {
+				continue
+			}
+			var cnt ssa.Value
+			switch {
+			case bo.Y == ssa.Value(limitPhi):
+				cnt = bo.X
+			case bo.X == ssa.Value(limitPhi):
+				cnt = bo.Y
+			default:
+				continue
+			}
+			n++
+			// the header phi behind the counter
+			var hphi *ssa.Phi
+			var find func(v ssa.Value, d int)
+			find = func(v ssa.Value, d int) {
+				if d > 6 || hphi != nil {
+					return
+				}
+				switch x := v.(type) {
+				case *ssa.Phi:
+					if x.Block() == header {
+						hphi = x
+						return
+					}
+					for _, e := range x.Edges {
+						find(e, d+1)
+					}
+				case *ssa.BinOp:
+					find(x.X, d+1)
+				}
+			}
+			find(cnt, 0)
+			if hphi == nil {
+				r.Check("R3", "HostClient.Do: the value compared with the attempt limit is a counter carried by the retry loop", false, p.Pos(iff.Pos()), "no loop-carried variable behind the compared value")
+				continue
+			}
+			var counted func(v ssa.Value, d int) bool
+			counted = func(v ssa.Value, d int) bool {
+				if d > 6 {
+					return false
+				}
+				switch x := v.(type) {
+				case *ssa.BinOp:
+					k, isK := constInt(x.Y)
+					return x.Op == token.ADD && isK && k > 0 && (x.X == ssa.Value(hphi) || counted(x.X, d+1))
+				case *ssa.Phi:
+					if x == hphi {
+						return false
+					}
+					for _, e := range x.Edges {
+						if !counted(e, d+1) {
+							return false
+						}
+					}
+					return len(x.Edges) > 0
+				}
+				return false
+			}
+			okCmp := counted(cnt, 0)
+			okBack := true
+			for i, e := range hphi.Edges {
+				if inL(header.Preds[i]) && !counted(e, 0) {
+					okBack = false
+				}
+			}
+			r.Check("R3", "HostClient.Do: every failed attempt that may be retried is counted (the counter tested against the limit and carried to the next attempt is incremented on every path)", okCmp && okBack, p.Pos(iff.Pos()),
+				fmt.Sprintf("compared value always incremented: %v; value carried into the next iteration always incremented: %v - an attempt that is not counted does not move the loop towards MaxIdemponentCallAttempts: the request is retransmitted until something else ends it", okCmp, okBack))
+		}
+		r.Floor("R3", "comparisons of the attempt counter with the limit in the retry loop", n, 1)
 	}
 	// isIdempotent's atoms
 	if f := p.Func("isIdempotent"); f != nil {
